@@ -30,6 +30,7 @@ func init() {
 			{Name: "containment-prefix", File: "artifact/image/unpack/unpack.go", Old: "	return rel == \"..\" || strings.HasPrefix(rel, \"..\"+string(filepath.Separator))", New: "	return strings.HasPrefix(rel, \"..\"+string(filepath.Separator))", Rule: "D5-no-prefix-confusion", Site: "pathOutsideBaseDirectory"},
 			{Name: "image-error-no-cleanup", File: "artifact/image/layerscanning/image/image.go", Old: "		if err != nil {\n			return handleImageError(outputImage, err)\n		}\n		v1LayerIndex--", New: "		if err != nil {\n			return nil, err\n		}\n		v1LayerIndex--", Rule: "D6-image-tempdir", Site: "FromV1Image"},
 			{Name: "image-zipslip-test-dropped", File: "artifact/image/layerscanning/image/image.go", Old: "		if strings.HasPrefix(cleanedFilePath, \"../\") {\n			continue\n		}\n", New: "", Rule: "D6-image-paths", Site: "fillChainLayersWithFilesFromTar"},
+			{Name: "link-target-fast-path", File: "artifact/image/symlink/symlink.go", Old: "	markerDir := uuid.New().String()\n", New: "	if !strings.HasPrefix(filepath.ToSlash(target), \"../\") && !strings.HasPrefix(filepath.ToSlash(target), \"/../\") {\n		return false\n	}\n	markerDir := uuid.New().String()\n", Rule: "D7-link-targets", Site: "TargetOutsideRoot"},
 		},
 	})
 }
@@ -105,6 +106,8 @@ func runC06(p *Prog, r *Report) {
 	c06TempPairing(p, r)
 	c06Unpack(p, r)
 	c06Image(p, r)
+	r.Rule("D7-link-targets", "the link-target check examines the joined, cleaned path on every path")
+	targetOutsideRootBody(p, r, "D7-link-targets")
 }
 
 func allExtractorRoots(p *Prog, r *Report) []*ssa.Function {
